@@ -1,8 +1,8 @@
 //! Whole runs of xargs against the composed specification (spec/XargsSem.tla).
 //! Input: {stdin:[bytes], delim (-1 default, else the byte; 0 is given as -0), n, L, s (0 = absent; counted as the
 //!   specification counts: command word + initial arguments + appended arguments, each + 1), x, r, init:[bytes..],
-//!   cmdlen, script:[outcome..]}
-//! Observation: {argvs:[[bytes..]..], exit}
+//!   cmdlen, script:[outcome..], afile (input given with -a FILE), echo (no command)}
+//! Observation: {argvs:[[bytes..]..], exit, stdout:[bytes]}
 use super::Prop;
 use crate::util::*;
 use crate::xrun::*;
@@ -52,11 +52,14 @@ impl Prop for PXSem {
         if !script.is_empty() {
             o.script = Some(script);
         }
+        o.arg_file = input.get("afile").and_then(|b| b.as_bool()).unwrap_or(false);
+        o.no_cmd = input.get("echo").and_then(|b| b.as_bool()).unwrap_or(false);
         let r = run_xargs(&self.sb, &o);
         if looks_like_panic(&r) {
             return json!({"panic": true, "exit": r.exit});
         }
-        json!({"argvs": r.execs.iter().map(|e| Value::Array(e.iter().map(|a| bytes_to_json(a)).collect())).collect::<Vec<_>>(), "exit": r.exit})
+        json!({"argvs": r.execs.iter().map(|e| Value::Array(e.iter().map(|a| bytes_to_json(a)).collect())).collect::<Vec<_>>(), "exit": r.exit,
+               "stdout": bytes_to_json(&r.stdout)})
     }
 
     fn gen(&mut self, rng: &mut Rng, idx: usize, tier: &str) -> Value {
@@ -99,12 +102,29 @@ impl Prop for PXSem {
                 script.push(*rng.pick(&[0i64, 0, 0, 1, 2, 125, 255, 1009]));
             }
         }
-        json!({"stdin": bytes_to_json(&stdin), "delim": delim, "n": n, "L": l, "s": s, "x": rng.chance(1, 5), "r": rng.chance(1, 4),
-               "init": init, "cmdlen": cmdlen, "script": script})
+        let mut v = json!({"stdin": bytes_to_json(&stdin), "delim": delim, "n": n, "L": l, "s": s, "x": rng.chance(1, 5), "r": rng.chance(1, 4),
+               "init": init, "cmdlen": cmdlen, "script": script, "afile": rng.chance(1, 4), "echo": false});
+        if rng.chance(1, 6) {
+            // no command: xargs echoes (plain ASCII input, no -s, no initial arguments, nothing to fail)
+            let ascii: Vec<u8> = stdin.iter().map(|b| if *b >= 128 { b'z' } else { *b }).collect();
+            v["stdin"] = bytes_to_json(&ascii);
+            v["echo"] = json!(true);
+            v["init"] = json!([]);
+            v["script"] = json!([]);
+            v["s"] = json!(0);
+        }
+        v
     }
 
     fn corrupt(&self, obs: &Value) -> Option<Value> {
         let mut o = obs.clone();
+        let mut out = json_to_bytes(&obs["stdout"]);
+        if out.len() > 1 {
+            // what xargs echoed: one byte less
+            out.remove(out.len() / 2);
+            o["stdout"] = bytes_to_json(&out);
+            return Some(o);
+        }
         o["exit"] = json!(if obs["exit"].as_i64() == Some(0) { 123 } else { 0 });
         Some(o)
     }
